@@ -353,6 +353,10 @@ fn apply_one_module<'a>(m: &mut wirm::Module<'a>, inj: &Inj, ops: Vec<O<'static>
                     it.inject_at(inj.at, inj.mode.im().expect("inject_at mode"), o);
                 }
             }
+            if inj.path == Path::Iter {
+                // closes the instruction-level mode only (see C26)
+                it.finish_instr();
+            }
         }
         Path::ModifierInjectAtAfterFuncEntry => {
             let mut fm = m.functions.get_fn_modifier(FunctionID(inj.func)).expect("modifier");
